@@ -416,3 +416,84 @@ def bool_edges(fn, sw):
         if v == "0":
             f_t = tg
     return t["else"], f_t
+
+
+def skeleton(fn, start_block, ignore_calls=(), max_nodes=400):
+    """Canonical decision skeleton of the CFG region reachable from start_block: calls (short callee names), switch
+    kinds with ordered successors, returns.  Numeric/string constants and local numbering are ignored, straight-line
+    blocks without calls are compressed.  Two sibling functions with the same decision structure give equal strings."""
+    ids = {}
+    out = []
+
+    def short(t):
+        n = t.get("fn") or ""
+        n = re.sub(r"<[^<>]*>", "", n)
+        n = re.sub(r"<[^<>]*>", "", n)
+        return n.rsplit("::", 2)[-2] + "::" + n.rsplit("::", 1)[-1] if "::" in n else n
+
+    def sw_kind(b):
+        si = switch_info(fn, b)
+        if si is None:
+            return "?"
+        if si["kind"] == "discr":
+            return "discr(" + si["ty"].split("<")[0].rsplit("::", 1)[-1] + ")"
+        s = si["src"]
+        if s is not None and s.kind == "rv" and s.rv["k"] == "bin":
+            return "cmp(" + s.rv["op"] + ")"
+        if s is not None and s.kind == "call":
+            return "call(" + short(s.term) + ")"
+        if s is not None and s.kind == "path":
+            return "flag(" + (s.root if (s.local or 99) <= fn.d["argc"] else "var") + ")"
+        if s is not None and s.kind == "rv" and s.rv["k"] == "un":
+            return "not"
+        return "val"
+
+    memo = {}
+    onstack = set()
+
+    def visit(b, depth=0):
+        # skip pure pass-through blocks
+        calls = []
+        hops = 0
+        while hops < 10000:
+            hops += 1
+            t = fn.term(b)
+            for st in fn.blocks[b]["st"]:
+                if st["lhs"] == {"l": 0}:
+                    rv = st["rv"]
+                    if rv["k"] == "agg":
+                        calls.append("=%s(%s)" % (rv["n"].rsplit("::", 1)[-1], ",".join(o.get("c", "_") for o in rv["ops"])))
+                    elif rv["k"] == "use" and "c" in rv["a"]:
+                        calls.append("=" + rv["a"]["c"])
+            if t["k"] == "call":
+                nm = short(t)
+                if not any(re.search(p, nm) for p in ignore_calls):
+                    calls.append(nm)
+            succ = fn.succ(b)
+            if t["k"] in ("goto", "falseedge", "falseunwind", "drop", "call", "assert") and len(succ) == 1 and succ[0] not in onstack \
+                    and (not calls or len(fn.pred(succ[0])) == 1):
+                b = succ[0]
+                continue
+            break
+        head = "".join("[%s]" % c for c in calls)
+        if b in onstack:
+            return head + "^L"
+        if b in memo:
+            return head + memo[b]
+        if depth > 120:
+            return head + "..."
+        onstack.add(b)
+        t = fn.term(b)
+        if t["k"] == "return":
+            r = "ret"
+        elif t["k"] == "switch":
+            kids = [visit(tg, depth + 1) for tg in fn.succ(b)]
+            r = "%s{%s}" % (sw_kind(b), "|".join(kids))
+        else:
+            succ = fn.succ(b)
+            r = "end" if not succ else visit(succ[0], depth + 1)
+        onstack.discard(b)
+        memo[b] = r
+        return head + r
+
+    return visit(start_block)
